@@ -1,7 +1,7 @@
 """C02: opening/closing/conditional/top-hat laws; subm."""
 import itertools
 import numpy as np
-from vlib.harness import Result, enc_arr, DT_CODES, apply_layout, LAYOUTS
+from vlib.harness import Result, enc_arr, DT_CODES, apply_layout, LAYOUTS, ROW_VIEWS
 from vlib import gen
 
 ID = "C02"
@@ -9,9 +9,11 @@ RULE = ("random (dtype in bool+unsigned [+signed for subm/cdilate/cerode] x ndim
         "(cross, boxes 3/5, disks r=1..3) x pairs (f,g); each case compares the 7 public functions with the Coq model and "
         "evaluates the lattice laws on the implementation's own outputs; subm: all 65536 uint8 and int8 pairs (thorough) plus "
         "boundary lattice of wider dtypes. Non-trivial: image not constant")
-NOT_PROVED = ["grey-scale (unsigned, unsaturated) opening/closing laws are checked on implementation outputs and by "
-              "correspondence only; the Coq adjunction theorem is proved for boolean images",
-              "binary duality dilate = not erode(not f) is checked on outputs only"]
+NOT_PROVED = ["the grey-scale laws are theorems for unsigned dtypes and FLAT elements at one height (what morph.py builds from boolean "
+              "masks); non-flat grey elements are compared with the model only",
+              "binary duality is a theorem for elements whose clamped neighbourhood relation is symmetric (cross, boxes, disks pass the "
+              "executable test shrink_closedb; an asymmetric element provably fails it): for other elements only the outputs are compared",
+              "the 2-D boolean fast path of _morph.cpp is tied to the generic model by correspondence (row views, all layouts)"]
 BUDGET_S = {"quick": 100, "thorough": 900}
 
 
@@ -42,9 +44,13 @@ def cases(ctx):
     for dtype in gen.INT_DTYPES:
         yield {"kind": "subm_lattice", "dtype": dtype, "seed": rng.randrange(1 << 30)}
     n = 500 if ctx.tier == "quick" else 6000
-    for i in range(n):
+    nrow = 40 if ctx.tier == "quick" else 400     # boolean 2-D views with contiguous rows: the domain of the 2-D fast path
+    for i in range(n + nrow):
         dtype = rng.choice(["bool", "bool", "uint8", "uint8", "uint16", "uint32", "uint64", "int8", "int16", "int32", "int64"])
         shape = gen.rand_shape(rng)
+        rowview = i >= n
+        if rowview:
+            dtype, shape = "bool", [rng.randint(2, 9), rng.randint(2, 12)]
         N = gen.size(shape)
         lo, hi = gen.INT_INFO[dtype]
         clear = rng.random() < 0.7 and dtype != "bool"
@@ -58,7 +64,7 @@ def cases(ctx):
         b, kind = regular_se(rng, len(shape))
         yield {"kind": "morph", "dtype": dtype, "shape": shape, "f": f, "g": g, "bshape": list(b.shape),
                "b": [int(v) for v in b.reshape(-1)], "se": kind, "clear": clear,
-               "layout": rng.choice(LAYOUTS), "glayout": rng.choice(LAYOUTS), "n": rng.choice([1, 1, 2, 3, 7])}
+               "layout": rng.choice(ROW_VIEWS if rowview else LAYOUTS), "glayout": rng.choice(LAYOUTS), "n": rng.choice([1, 1, 2, 3, 7])}
 
 
 def run_subm_pairs(ctx, dtype, pairs):
@@ -99,8 +105,8 @@ def run_case(ctx, case):
     f0 = gen.mk(dtype, case["shape"], case["f"])
     g0 = gen.mk(dtype, case["shape"], case["g"])
     b0 = gen.mk(dtype, case["bshape"], case["b"])
-    f = apply_layout(f0, case["layout"])
-    g = apply_layout(g0, case["glayout"])
+    f = apply_layout(f0, case["layout"], fill=1)     # the memory around a view is not zero
+    g = apply_layout(g0, case["glayout"], fill=1)
     ef, eg, eb = enc_arr(f0), enc_arr(g0), enc_arr(b0)
     fl = lambda x: [int(v) for v in np.asarray(x).reshape(-1)]
     M = ctx.model
